@@ -73,6 +73,9 @@ func genC02(r *simrt.Rand, tier string, idx uint64) *Plan {
 		if r.Chance(1, 3) {
 			p.Conns[i].DirectSet = 2 // unbuffered: a failing socket write is reported to send()
 		}
+		if r.Chance(1, 3) {
+			p.Conns[i].Pipelining = true // client pipelining: completions go through the ordered queue
+		}
 	}
 	if idx%3 == 0 {
 		p.Sim.Starve = "rpc.Conn.Dial" // the connection reader only runs when nothing else can
@@ -86,6 +89,21 @@ func genC02(r *simrt.Rand, tier string, idx uint64) *Plan {
 	for c := 0; c < nclients; c++ {
 		cp := ClientPlan{Conn: r.Intn(len(p.Conns))}
 		cp.Ops = mixedOps(r, 1+r.Intn(8), &big, []string{"go", "go", "rt", "rt", "call", "ctx"})
+		if r.Chance(1, 2) {
+			// calls answered with an error response (handler error, unknown method, undecodable arguments):
+			// completed once by that response, never again by the sweep when the connection ends
+			for j := range cp.Ops {
+				op := &cp.Ops[j]
+				if (op.Kind == "go" || op.Kind == "rt" || op.Kind == "call") && r.Chance(1, 3) {
+					if r.Chance(1, 2) {
+						op.Flags |= FlFail
+						op.Arg = uint32(1 + r.Intn(40))
+					} else {
+						op.Bad = []string{"method", "args"}[r.Intn(2)]
+					}
+				}
+			}
+		}
 		if r.Chance(1, 3) {
 			// a call abandoned by its context, then a call that is outstanding when the late response
 			// arrives: it must be completed once, by its own response
@@ -543,6 +561,9 @@ func genC05(r *simrt.Rand, tier string, idx uint64) *Plan {
 	for ci := range p.Conns {
 		p.Conns[ci].Pipelining = r.Chance(2, 3)
 		p.Conns[ci].DirectSet = genDirectSet(r)
+		if r.Chance(1, 3) {
+			p.Conns[ci].OptOrder = 1 + r.Intn(2) // the options are applied in another order, the direct-I/O one twice
+		}
 		ng := 1
 		if multi {
 			ng = 2 + r.Intn(2)
